@@ -22,6 +22,7 @@ type harnessCfg struct {
 	timeoutMs      int
 	wallLimit      time.Duration
 	concurrent     bool
+	maxPreemptions int
 	numCPU         int
 	forkIndexBelow int
 	maxSchedPoints int
@@ -31,7 +32,7 @@ type harnessCfg struct {
 }
 
 func defaultCfg() harnessCfg {
-	return harnessCfg{maxSteps: 2000000, maxDepth: 200, maxDecisions: 5000, maxConcretize: 64, maxPaths: 200000, solver: "z3new", timeoutMs: 30000, wallLimit: 10 * time.Minute, maxSchedPoints: 60, forkIndexBelow: 8}
+	return harnessCfg{maxSteps: 2000000, maxDepth: 200, maxDecisions: 5000, maxConcretize: 64, maxPaths: 200000, solver: "z3new", timeoutMs: 30000, wallLimit: 10 * time.Minute, maxSchedPoints: 60, maxPreemptions: 2, forkIndexBelow: 8}
 }
 
 type runStats struct {
@@ -452,6 +453,7 @@ func (in *Interp) resetPath() {
 	in.uncertain = false
 	in.sched = nil
 	in.curG = nil
+	in.syncState = map[*value]int64{}
 }
 
 // runOnePath executes the harness once; returns the way the path ended.
